@@ -15,6 +15,7 @@
 #include <assemblyline.h>
 #include <verif_hooks.h>
 #include <pthread.h>
+#include <stdbool.h>
 #include <stdatomic.h>
 #include <stdio.h>
 #include <stdlib.h>
@@ -34,7 +35,7 @@ extern _Atomic(int) opd_format_table_index[26];
 #define MAXLOG 200000
 
 /* work items: (options, chunk, counting, program) - private per thread */
-struct item { int mov, swap, nobase, chunk, count; const char *text; int usefile; int internal; };
+struct item { int mov, swap, nobase, chunk, count; const char *text; int usefile; int internal; int debug; };
 static const struct item ITEMS[] = {
     {2, 1, 1, 0, 0, "mov rax, 0x5\nadd rax, rcx\nxchg rax, r9\nlea rdx, [rax+rsp]\nlea rcx, [2*rax]\nxchg eax, ecx\nret\n"},
     /* the file entry points (files of different sizes, private to the item): placed so that two threads run them side by side */
@@ -51,6 +52,9 @@ static const struct item ITEMS[] = {
        mnemonics with the same first letter */
     {2, 1, 1, 0, 0, "adc rax, rcx\nadd xmm0, xmm1\nret\n"},
     {2, 1, 1, 0, 0, "adcx rax, rcx\nand rax, rcx\npaddq ymm0, ymm1\nret\n"},
+    /* the debug listing switched on, in plain and in counting mode (stdout is silenced while the threads run) */
+    {2, 1, 1, 0, 0, "mov rax, 0x1122334455667788\nadd rax, rcx\nvpaddb ymm1, ymm2, [rax+r9*4]\nret\n", 0, 0, 1},
+    {1, 0, 1, 0, 8, "imul rax, rcx, 0x12345\nnop9\nmov qword [rax+0x12345], 0x5\nret\n", 0, 0, 1},
     /* a library-managed buffer that has to grow (and may move) twice: text built at start-up; free-running mode only
        (thousands of table accesses: too long for the interleaving model) */
     {2, 1, 1, 0, 0, NULL, 0, 1},
@@ -87,6 +91,7 @@ static void work(const struct item *it, unsigned char *buf, struct result *r) {
   asm_sib_index_base_swap(al, ov(it->swap));
   asm_sib_no_base(al, ov(it->nobase));
   if (it->chunk) asm_set_chunk_size(al, it->chunk);
+  if (it->debug) asm_set_debug(al, true);
   char *txt = strdup(it->usefile ? item_path[it - ITEMS] : it->text ? it->text : long_text);
   r->dest = -7;
   in_work = 1;
@@ -275,8 +280,15 @@ static void run_threads(int n, int rounds, struct result *ref) {
   static struct result res[MAXT + 1][64];
   nlog = 0; sptr = 0; holder = -1;
   memset(finished, 0, sizeof finished);
+  /* the listing of the debug items goes to stdout: silenced until the threads are done */
+  fflush(stdout);
+  int keep1 = dup(1), nul1 = __real_open("/dev/null", O_WRONLY, 0);
+  if (nul1 >= 0) dup2(nul1, 1);
   for (int t = 1; t <= n; t++) { ta[t].id = t; ta[t].rounds = rounds; ta[t].res = res[t]; pthread_create(&th[t], NULL, thread_main, &ta[t]); }
   for (int t = 1; t <= n; t++) pthread_join(th[t], NULL);
+  fflush(stdout);
+  if (keep1 >= 0) { dup2(keep1, 1); close(keep1); }
+  if (nul1 >= 0) close(nul1);
   if (stress_mode) {
     printf("{\"e\":\"Stress\",\"threads\":%d,\"rounds\":%d,\"mismatches\":%d,\"grows\":%d,\"moves\":%d}\n{\"e\":\"Reset\"}\n", n, rounds, stress_bad, stress_grows, stress_moves);
     fflush(stdout);
@@ -338,7 +350,13 @@ int main(int argc, char **argv) {
     for (int k = 0; k < NITEMS; k++) {
       me = 1; nlog = 0;
       struct result r;
+      fflush(stdout);
+      int keepo = dup(1), nulo = __real_open("/dev/null", O_WRONLY, 0);     /* (the listing of the debug items) */
+      if (nulo >= 0) dup2(nulo, 1);
       work(&ITEMS[k], buf, &r);
+      fflush(stdout);
+      if (keepo >= 0) { dup2(keepo, 1); close(keepo); }
+      if (nulo >= 0) close(nulo);
       me = 0;
       printf("{\"e\":\"Item\",\"k\":%d,\"acc\":[", k);
       for (int q = 0; q < nlog; q++)
